@@ -74,7 +74,7 @@ def generate(rng, run, tier):
     n = rng.randint(3, 8)
     defined = False
     objs = ['T', 'T', 'other', 'int', 'str', 'none', 'list_T', 'list_other', 'dict_T', 'tuple_T', 'cls_T', 'tuple_int_T', 'list_none',
-            'tuple_T_str', 'tuple_str_T', 'dict_int_T']
+            'tuple_T_str', 'tuple_str_T', 'dict_int_T', 'T_bad', 'T_bad', 'T_good']
     if shape in IGNORABLE_SHAPES and rng.random() < 0.9:
         # avoid switch: known finding C07-fwdref-hidden-in-ignorable-child (most runs steer around it)
         shape = 'list[{T}]'
@@ -90,6 +90,9 @@ def generate(rng, run, tier):
         events.append({'e': 'call', 'x': rng.choice(objs), 'draw': 0})
         events.append({'e': 'call', 'x': 'T', 'draw': 0})
     return {'placement': placement, 'style': style, 'text': text, 'T': t, 'U': u, 'events': events,
+            # what the module-level names Early / Later refer to: plain classes, or subclasses of a subscripted generic
+            # (avoid switch: in closures the known finding C07-closure-fake-forwardref also shows with such classes)
+            'flavour': rng.choice([None, None, None, 'list_int', 'dict_str_int']) if (placement != 'closure' or rng.random() < 0.15) else None,
             # the same source is executed a second time in a second module with its own classes (same names):
             # nothing resolved or generated for the first scope may leak into the second
             'two_scopes': rng.random() < 0.5}
@@ -134,7 +137,23 @@ def _resolve(name, mod):
     return mod.__dict__.get(name)
 
 
+def _mkcls(name, modname, flavour):
+    """The class a name refers to: plain, or a subclass of a subscripted generic (a class that is itself a checkable hint)."""
+    if flavour == 'list_int':
+        return types.new_class(name, (list[int],), {}, lambda ns: ns.update(__module__=modname))
+    if flavour == 'dict_str_int':
+        return types.new_class(name, (dict[str, int],), {}, lambda ns: ns.update(__module__=modname))
+    return type(name, (), {'__module__': modname})
+
+
 def _obj(kind, tcls, other):
+    if kind in ('T_bad', 'T_good'):
+        # an instance of T whose *contents* violate / satisfy the subscription T was derived from (plain T: just an instance)
+        if isinstance(tcls, type) and issubclass(tcls, list):
+            return tcls(['oops'] if kind == 'T_bad' else [1, 2])
+        if isinstance(tcls, type) and issubclass(tcls, dict):
+            return tcls({'k': 'oops'} if kind == 'T_bad' else {'k': 1})
+        return tcls()
     if kind == 'T':
         return tcls()
     if kind == 'other':
@@ -201,7 +220,7 @@ def _run_scope(case, modname, probes):
     from sim import boot
     mod = types.ModuleType(modname)
     sys.modules[modname] = mod
-    mod.__dict__['Early'] = type('Early', (), {'__module__': modname})
+    mod.__dict__['Early'] = _mkcls('Early', modname, case.get('flavour'))
     other = type('Unrelated', (), {'__module__': modname})
     viol = None
     calls = []          # (event index, kind, draw, outcome, resolved?)
@@ -222,7 +241,7 @@ def _run_scope(case, modname, probes):
             if viol is None:
                 for i, ev in enumerate(case['events']):
                     if ev['e'] == 'define':
-                        mod.__dict__[ev['n']] = type(ev['n'], (), {'__module__': modname})
+                        mod.__dict__[ev['n']] = _mkcls(ev['n'], modname, case.get('flavour'))
                         defined_later = True
                         continue
                     tcls = _resolve(case['T'], mod)
@@ -328,7 +347,15 @@ def shrink(case, violation):
 
 
 def _sig_closure_fake(case, v):
-    return v.get('kind') == 'unresolved_not_reported' and case.get('placement') == 'closure'
+    if case.get('placement') != 'closure':
+        return False
+    if v.get('kind') == 'unresolved_not_reported':
+        return True
+    # second face of the same by-name stand-in: once the name exists, an instance of the (generic-derived) class is accepted
+    # whatever it contains, where the evaluated annotation checks the contents
+    d = v.get('detail', '')
+    return (v.get('kind') == 'differs_from_evaluated' and bool(case.get('flavour')) and 'call with T_bad' in d
+            and "string form ['accept', True]" in d and "evaluated form ['beartype', 'BeartypeCallHint" in d)
 
 
 def _sig_hidden_ref(case, v):
